@@ -10,18 +10,18 @@ NOTE_COMMON = ("Trusted base: the simulator (verif/sim/simrt, simsync), the inst
 CHECKS = {
  "C04": ("§4 C04", "Event history of every sorted call (bare engine and pool) is checked against the sort-model spec: one at a time, each once, non-increasing salience (tie-tolerant), continue/stop policy, error iff a rule failed, the returned error carries the first failure's marker. Faults are injected panics in rule bodies; map order at build time is a simulator choice; in 40 % of the engine runs the rule set evolves between calls through multi-rule incremental builds and removals; 30 % of the runs go through a pool with 1-4 concurrent clients. Rules fail in calls, return expressions, divisions, conditions (incl. string-valued reflect panics), nil-field reads and conc blocks; 3 % of the rule sets have 9-40 rules."),
  "C05": ("§4 C05", "Stage-barrier partial order, exactly-once, window and error policy of mix / inverse-mix / N-M (and selected forms) under simulator-chosen interleavings; a rule of a non-final stage is parked on a quiescence-released gate so that a missing join shows in every schedule. Failing subsets use every failure host of C04; large rule sets (up to 40, tie splits chosen from the observed start order when too many to enumerate)."),
- "C09": ("§4 C09", "Rule faults of 22 kinds x host constructs (incl. injected functions handed a wrong argument kind or too few arguments, failing stores inside conc blocks, a struct kept by value in a local) are injected by per-call behaviour plans in all 21 execute methods; a panic leaving a call, a panic in a goroutine (process death), a deadlock or a hang are deterministic simulator verdicts; the surviving rules must still satisfy the model's spec and later calls must be unaffected. One run in five is a pool scenario with faulty requests and concurrent management calls (update, remove, clear, set-model), judged on containment only (deadlocks through lock misuse, incl. RWMutex writer preference, show there). 3 % of the runs are one long history (70-140 calls) of a single entry point on one engine, nearly every call with failing rules."),
+ "C09": ("§4 C09", "Rule faults of 27 kinds x host constructs (incl. injected functions handed a wrong argument kind or too few arguments, failing stores inside conc blocks, failing else-if conditions and calls inside for bodies, a stray break, a loop whose body grows what it ranges over, stores through locals) are injected by per-call behaviour plans in all 21 execute methods; a panic leaving a call, a panic in a goroutine (process death), a deadlock or a hang are deterministic simulator verdicts; the surviving rules must still satisfy the model's spec and later calls must be unaffected. One run in five is a pool scenario with faulty requests and concurrent management calls (update, remove, clear, set-model), judged on containment only (deadlocks through lock misuse, incl. RWMutex writer preference, show there). 3 % of the runs are one long history (70-140 calls) of a single entry point on one engine, nearly every call with failing rules."),
  "C11": ("§4 C11", "After every call the result map is compared with the set of executions that reached a return in this call (9 return shapes incl. failing return expressions), across call sequences on one engine, all models."),
- "C12": ("§4 C12", "Selected variants: run set == named ∩ existing, promised order (sorted / as given / staged), must-fail-without-running preconditions (no existing name; N-M forms with unknown name or wrong count)."),
+ "C12": ("§4 C12", "Selected variants: run set == named ∩ existing, promised order (sorted / as given / staged), must-fail-without-running preconditions (no existing name; N-M forms with unknown name or wrong count). A caller that passes its own names variable again passes the same slice object; 30 % of the runs go through a pool, incl. its own-model selected entry point."),
  "C13": ("§4 C13", "DAG model: layer barriers under chosen interleavings with gated rules, once per occurrence, unknown names skipped, failure stops later layers, error iff failure; 0-9 layers of width 0-8, and layers as wide as a 40-rule set."),
- "C14": ("§4 C14", "Stop-tag variants: nothing starts after the rule that set the tag (sorted forms) / after a tag set by the first rule (mix form); tag never set => the untagged variant's spec, and (differential twin) a stop-tag call in which nothing touches the tag must execute exactly what the same call through the untagged entry point executes on an identically prepared engine."),
- "C15": ("§4 C15", "Locals: value assigned by one execution is read back unchanged although every rule uses the same local name and executions overlap (DAG duplicates, concurrent models); reader rules (looking for any of eleven local names that other rules of the set assign: plain locals, conc-assigned locals, objects, structs) must fail with not-found in every position and call; locals copied from injected slots and updated in place must not write through; a plain name injected in some calls only is a local in the others and shared (visible to the caller) where injected."),
- "C06": ("§4 C06", "Pool request isolation under chosen interleavings of 1-5 clients on pools (1,2)...(3,5): every value a rule reads (Req.ID, optional Opt key) or returns is derived from its own request, a request that did not inject Opt must fail to read it whoever used the instance before, result maps and request objects are unchanged after return, no event of a request after it returned; a local left by an earlier request is not visible to a later one. In a quarter of the runs the pool first goes through a management history (clear/update, remove-all/incremental, ...) that ends in the initial rule set."),
+ "C14": ("§4 C14", "Stop-tag variants: nothing starts after the rule that set the tag (sorted forms) / after a tag set by the first rule (mix form); tag never set => the untagged variant's spec, and (differential twin) a stop-tag call in which nothing touches the tag must execute exactly what the same call through the untagged entry point executes on an identically prepared engine. A fifth of the calls on one engine reuse the previous call's Stag as it was left; such a call is judged on one thing only: once one of its rules has set the tag no further rule starts."),
+ "C15": ("§4 C15", "Locals: value assigned by one execution is read back unchanged although every rule uses the same local name and executions overlap (DAG duplicates, concurrent models); reader rules (looking for any of eleven local names that other rules of the set assign: plain locals, conc-assigned locals, objects, structs) must fail with not-found in every position and call; locals copied from injected slots and updated in place must not write through; a plain name injected in some calls only is a local in the others and shared (visible to the caller) where injected; counting loops with a scheduling point in the body keep their own counter; a rule that cannot fail and stops where it reads its own local back lost it."),
+ "C06": ("§4 C06", "Pool request isolation under chosen interleavings of 1-5 clients on pools (1,2)...(3,5): every value a rule reads (Req.ID, optional Opt key) or returns is derived from its own request, a request that did not inject Opt must fail to read it whoever used the instance before, result maps and request objects are unchanged after return, no event of a request after it returned; a local left by an earlier request is not visible to a later one. In a quarter of the runs the pool first goes through a management history (clear/update, remove-all/incremental, ...) that ends in the initial rule set; half of the requests inject a function value and an optional object, the others must fail to use them; a by-value entry of the pool's api map must never show another request's value; rule sets needing optional names only are also served through the two-object entry point."),
  "C07": ("§4 C07", "Admin tasks (and rules themselves) perform full / incremental / removal updates while clients execute through all pool methods; the oracle searches a serialisation of the successful updates, consistent with their real-time order, under which every execution ran exactly one installed version that is admissible for its invoke/return times (the property's own conditions, not linearizability)."),
  "C08": ("§4 C08", "Histories of 1-12 BuildRuleFromString / BuildRuleWithIncremental / RemoveRules operations with simulator-chosen map iteration order; after every operation the sort model's (rule, version, @sal) sequence and IsExist are compared with a 30-line set model; failed operations must change nothing."),
  "C10": ("§4 C10", "Compile faults inside operation histories: each generated text (valid, broken, duplicate name, token-mutated, stray bytes, blank) goes to all five compile entry points from equal states; no panic, identical accept/reject verdicts, reject => installed set unchanged, accept => model successor (or identical sets across twin entry points when validity is unknown). A builder/pool twin pair additionally receives the same mixed full / incremental / removal / clear history, and earlier texts are resubmitted verbatim. The all-byte-strings quantifier is sampled (incl. random byte strings), not enumerated."),
  "C16": ("§4 C16", "One task alternates pool management operations (full/incremental/remove/clear/set-model, valid and invalid) with all queries and with probe rounds that hold max simultaneous requests inside their first rule, so every engine instance (initial and additional) executes after every operation; queries and executions are compared with the pool reference model."),
- "C17": ("§4 C17", "Invariants over the event history of pools of sizes (1,1)..(3,5) and, in 4 % of the runs, above one 64-bit word ((2,66), (60,70), (65,66), (30,33)): <= max requests inside rules at any event; a request arriving while max requests are held waits (neither runs nor returns) until a hold is released; after any mix of normal, failing and panicking requests a final round of max simultaneous held requests gets all of them inside at once; the waiter round releases one held request first (staged release) and the waiter must get exactly that instance; a lost instance or a busy wait shows as a hang verdict under bounded-fair schedules (loop back edges are scheduling points); two in-flight requests on one instance show through the isolation clauses; in part of the runs an admin task clears / updates the pool concurrently and the rules are re-installed before the final round."),
+ "C17": ("§4 C17", "Invariants over the event history of pools of sizes (1,1)..(3,5) and, in 4 % of the runs, above one 64-bit word ((2,66), (60,70), (65,66), (30,33)): <= max requests inside rules at any event; a request arriving while max requests are held waits (neither runs nor returns) until a hold is released; after any mix of normal, failing and panicking requests a final round of max simultaneous held requests gets all of them inside at once; the waiter round releases one held request first (staged release) and the waiter must get exactly that instance; a lost instance or a busy wait shows as a hang verdict under bounded-fair schedules (loop back edges are scheduling points); two in-flight requests on one instance show through the isolation clauses; in part of the runs an admin task clears / updates the pool concurrently and the rules are re-installed before the final round; 3 % of the waiter rounds have 260-300 requests waiting at once; requests fail in every way C09 knows (incl. functions handed ill-typed arguments)."),
  "C19": ("§4 C19, §2.6", "The concurrency scenarios of C05/C06/C07/C13/C17/C18 plus clear/set-model concurrent with requests, built with -race; the simulator's hand-off is hidden from the detector (RaceDisable around channel operations, simulated sync mirrored on real primitives) so it sees exactly the program's own happens-before relation on simulator-chosen, replayable schedules. A report is a violation when at least one access is attributed to a gengine frame (not to reflect-on-user-objects or the harness)."),
  "C18": ("§4 C18", "conc blocks: each child once, parent resumes only after every child event, next statement sees all assigned locals/fields, a failing child fails the block after all children ended; children parked on gates make a missing join visible in every schedule. Blocks of up to 31 statements of all four forms, children overwriting locals declared before the block, a child whose own store fails (not a called method)."),
 }
